@@ -411,7 +411,8 @@ def do_case(spec):
     logging.disable(logging.CRITICAL)
     from . import gendoc
     (m, sd, p_opt, max_rep, copies, lid_seed, max_lids) = spec
-    g = gendoc.Gen(m['map_file'], m['icvn'], m['vriic'], m['fic'], seed=sd, p_opt=p_opt, max_rep=max_rep, tspc=m.get('tspc'))
+    g = gendoc.Gen(m['map_file'], m['icvn'], m['vriic'], m['fic'], seed=sd, p_opt=p_opt, max_rep=max_rep, tspc=m.get('tspc'),
+                   p_perm=(0.5 if sd % 3 == 0 else 0.0))
     g.doc()
     gsegs = arrange(list(g.segs), copies)
     text = ''.join(sg.format('~', '*', ':') + '\n' for sg, _ in gsegs)
